@@ -138,6 +138,17 @@ Section Mono.
     revert H. rec_step as st3 v sg; try reflexivity.
   Qed.
 
+  Lemma switch_arms_mono : forall arms st cur v,
+    snd (switch_arms r1 st cur v arms) <> OutOfFuel ->
+    switch_arms r2 st cur v arms = switch_arms r1 st cur v arms.
+  Proof.
+    induction arms as [|[p body] rest IH]; intros st cur v; cbn [switch_arms]; [reflexivity|].
+    destruct (push_frame st cur) as [st1 fr]. destruct p.
+    - destruct v; try apply IH. destruct (Z.eqb z z0); [apply Hle|apply IH].
+    - destruct (declare_all st1 fr [(x, v)]) as [st2 [?|?|]]; cbn [bindR]; try reflexivity. apply Hle.
+    - apply Hle.
+  Qed.
+
   Lemma evalF_mono : rec_le (evalF r1) (evalF r2).
   Proof.
     intros st cur e. destruct e; cbn [evalF]; try reflexivity.
@@ -183,6 +194,8 @@ Section Mono.
     - (* EPrim *) intros H. rewrite eval_exprs_mono; [reflexivity|].
       intro C. apply H. destruct (eval_exprs r1 st cur args) as [? [?|?|]]; cbn in *; congruence.
     - (* EEval *) rec_step as st1 v sg; try reflexivity.
+    - (* ESwitch *) unfold eval_switch. rec_step as st1 v sg; cbn [bindR]; try reflexivity.
+      apply switch_arms_mono.
   Qed.
 End Mono.
 
@@ -368,6 +381,27 @@ Section Inv.
       - cbn [call_result]. intros H; inversion H; subst. apply (P_scope cur env). chain.
     Qed.
 
+    Lemma switch_arms_inv : forall arms st cur v st' r,
+      switch_arms rec st cur v arms = (st', r) -> P cur st st'.
+    Proof.
+      induction arms as [|[p body] rest IH]; intros st cur v st' r; cbn [switch_arms]; [fin|].
+      destruct (push_frame st cur) as [st1 fr] eqn:Ep.
+      assert (Hfr : fr = List.length (frames st)) by (unfold push_frame in Ep; inversion Ep; reflexivity).
+      assert (Hst1 : st1 = fst (push_frame st cur)) by (rewrite Ep; reflexivity).
+      assert (Hpush : P cur st st1) by (subst; apply (P_scope cur cur); apply P_refl).
+      assert (Hbody : forall b, rec st1 fr b = (st', r) -> P cur st st').
+      { intros b H. apply Hrec in H. subst. apply (P_scope cur cur). assumption. }
+      assert (Hrest : switch_arms rec st1 cur v rest = (st', r) -> P cur st st').
+      { intros H. apply IH in H. chain. }
+      destruct p.
+      - destruct v; try exact Hrest. destruct (Z.eqb _ _); [apply Hbody|exact Hrest].
+      - destruct (declare_all st1 fr [(x, v)]) as [st2 [?|?|]] eqn:Ed; apply declare_all_inv in Ed; cbn [bindR].
+        + intros H. apply Hrec in H. subst. apply (P_scope cur cur). chain.
+        + intros H; inversion H; subst. apply (P_scope cur cur). chain.
+        + intros H; inversion H; subst. apply (P_scope cur cur). chain.
+      - apply Hbody.
+    Qed.
+
     Lemma evalF_inv : inv_rec (evalF rec).
     Proof.
       intros st cur e st' r. destruct e; cbn [evalF]; try fin.
@@ -428,6 +462,8 @@ Section Inv.
       - (* EPrim *) destruct (eval_exprs rec st cur args) as [? [?|?|]] eqn:E; apply eval_exprs_inv in E; cbn [bindR]; try fin.
         intros H. apply (prim_apply_inv _ _ _ cur) in H. chain.
       - (* EEval *) dr; unfold eval_result; try fin. destruct s0; fin.
+      - (* ESwitch *) unfold eval_switch. dr; cbn [bindR]; try fin.
+        intros H. apply switch_arms_inv in H. chain.
     Qed.
   End WithRecInv.
 
@@ -586,6 +622,12 @@ Proof.
   exists fr2. repeat split; congruence.
 Qed.
 
+Lemma push_preserves_all : forall st p, preserves_all st (fst (push_frame st p)).
+Proof.
+  intros st p f fr Hf. exists fr. cbn [push_frame fst frames].
+  rewrite nth_error_app1 by (apply nth_error_Some; congruence). auto.
+Qed.
+
 Theorem scope_discipline : forall n st cur e st' r,
   eval n st cur e = (st', r) -> preserves cur st st'.
 Proof.
@@ -687,6 +729,30 @@ Proof.
   apply (for_body_inv preserves preserves_trans (eval n) (scope_discipline n)).
 Qed.
 
+(* all the arms of a switch, tried in turn *)
+Lemma switch_scope : forall n arms st cur v st' r,
+  switch_arms (eval n) st cur v arms = (st', r) -> preserves_all st st'.
+Proof.
+  intros n. induction arms as [|[p body] rest IH]; intros st cur v st' r; cbn [switch_arms].
+  - intros H; inversion H; subst. intros f fr Hf. exists fr. auto.
+  - destruct (push_frame st cur) as [st1 fr] eqn:Ep.
+    assert (Hfr : fr = List.length (frames st)) by (unfold push_frame in Ep; inversion Ep; reflexivity).
+    assert (Hst1 : st1 = fst (push_frame st cur)) by (rewrite Ep; reflexivity).
+    assert (Hpush : preserves_all st st1) by (subst; apply push_preserves_all).
+    assert (Hbody : forall b, eval n st1 fr b = (st', r) -> preserves_all st st').
+    { intros b H. apply scope_discipline in H. apply (preserves_fresh_all cur). rewrite <- Hfr, <- Hst1. assumption. }
+    assert (Hrest : switch_arms (eval n) st1 cur v rest = (st', r) -> preserves_all st st').
+    { intros H. apply IH in H. eapply preserves_all_trans; eassumption. }
+    destruct p.
+    + destruct v; try exact Hrest. destruct (Z.eqb _ _); [apply Hbody|exact Hrest].
+    + destruct (declare_all st1 fr [(x, v)]) as [st2 rd] eqn:Ed.
+      apply (declare_all_inv preserves preserves_refl preserves_trans preserves_declare) in Ed.
+      intros H. apply (preserves_fresh_all cur). rewrite <- Hfr, <- Hst1.
+      destruct rd as [u|sg|]; cbn [bindR] in H; try (inversion H; subst; assumption).
+      apply scope_discipline in H. eapply preserves_trans; eassumption.
+    + apply Hbody.
+Qed.
+
 Lemma catch_scope : forall n st cur b x h st1 v st' r,
   eval n st cur b = (st1, Sig (SThrow v)) ->
   eval (S n) st cur (ETry b x h) = (st', r) ->
@@ -702,4 +768,495 @@ Proof.
   apply (declare_all_inv preserves preserves_refl preserves_trans preserves_declare) in Ed.
   destruct rd as [u|sg|]; cbn [bindR] in H; try (inversion H; subst; assumption).
   apply scope_discipline in H. eapply preserves_trans; eassumption.
+Qed.
+
+(* ================================================================ 5. resolution: nearest enclosing declaration *)
+(* walking up from frame f, g is the first frame that declares x *)
+Inductive nearest (fs : list frame) (x : name) : nat -> nat -> Prop :=
+| nearest_here f fr : nth_error fs f = Some fr -> in_dom x fr = true -> nearest fs x f f
+| nearest_up f fr p g :
+    nth_error fs f = Some fr -> in_dom x fr = false -> parent fr = Some p -> p < f ->
+    nearest fs x p g -> nearest fs x f g.
+
+Lemma resolve_aux_nearest : forall fs x d f g, resolve_aux d fs f x = Some g -> nearest fs x f g.
+Proof.
+  intros fs x. induction d as [|d IH]; intros f g; cbn [resolve_aux]; [discriminate|].
+  destruct (nth_error fs f) as [fr|] eqn:E; [|discriminate].
+  destruct (in_dom x fr) eqn:D.
+  - intros H; inversion H; subst. eapply nearest_here; eassumption.
+  - destruct (parent fr) as [p|] eqn:Ep; [|discriminate].
+    destruct (Nat.ltb p f) eqn:L; [|discriminate]. apply Nat.ltb_lt in L.
+    intros H. eapply nearest_up; eauto.
+Qed.
+
+Lemma nearest_resolve_aux : forall fs x f g, nearest fs x f g -> forall d, f < d -> resolve_aux d fs f x = Some g.
+Proof.
+  intros fs x f g H. induction H as [f fr E D | f fr p g E D Ep L H IH]; intros d Hd;
+    (destruct d as [|d]; [lia|]); cbn [resolve_aux]; rewrite E, D.
+  - reflexivity.
+  - rewrite Ep. assert (Lb : Nat.ltb p f = true) by (apply Nat.ltb_lt; assumption). rewrite Lb. apply IH. lia.
+Qed.
+
+Theorem resolve_nearest : forall fs f x g, resolve fs f x = Some g <-> nearest fs x f g.
+Proof.
+  intros fs f x g. unfold resolve. split.
+  - apply resolve_aux_nearest.
+  - intros H. apply (nearest_resolve_aux _ _ _ _ H). lia.
+Qed.
+
+Lemma nearest_fun : forall fs x f g1 g2, nearest fs x f g1 -> nearest fs x f g2 -> g1 = g2.
+Proof.
+  intros fs x f g1 g2 H. revert g2. induction H as [f fr E D | f fr p g E D Ep L H IH]; intros g2 H2.
+  - inversion H2; subst; [reflexivity|congruence].
+  - inversion H2; subst; [congruence|]. apply IH. congruence.
+Qed.
+
+Lemma resolve_aux_depth : forall fs x f d, f < d -> resolve_aux d fs f x = resolve fs f x.
+Proof.
+  intros fs x f d Hd. unfold resolve.
+  destruct (resolve_aux (S f) fs f x) as [g|] eqn:E.
+  - apply resolve_aux_nearest in E. apply (nearest_resolve_aux _ _ _ _ E). assumption.
+  - destruct (resolve_aux d fs f x) as [g|] eqn:E2; [|reflexivity].
+    apply resolve_aux_nearest in E2. rewrite (nearest_resolve_aux _ _ _ _ E2 (S f)) in E by lia. discriminate.
+Qed.
+
+Lemma resolve_some_frame : forall fs f x g,
+  resolve fs f x = Some g -> exists fr, nth_error fs g = Some fr /\ In x (names fr) /\ g <= f.
+Proof.
+  intros fs f x g H. apply resolve_nearest in H.
+  induction H as [f fr E D | f fr p g E D Ep L H IH].
+  - exists fr. repeat split; [assumption|apply in_dom_spec; assumption|lia].
+  - destruct IH as [fr' [A [B C]]]. exists fr'. repeat split; [assumption|assumption|lia].
+Qed.
+
+(* ================================================================ 6. `:=` and `=` *)
+Lemma declare_spec : forall st cur x v fr,
+  nth_error (frames st) cur = Some fr ->
+  (In x (names fr) -> declare st cur x v = None) /\
+  (~ In x (names fr) ->
+     declare st cur x v = Some (mkState (set_nth cur (mkFrame (parent fr) ((x, v) :: vars fr)) (frames st)) (out st))).
+Proof.
+  intros st cur x v fr E. unfold declare. rewrite E.
+  destruct (in_dom x fr) eqn:D.
+  - split; [reflexivity|]. intros N. apply in_dom_spec in D. contradiction.
+  - split; [|reflexivity]. intros I. apply in_dom_spec in I. congruence.
+Qed.
+
+(* x := e, once e has produced v: it fails iff x is already declared in the CURRENT frame
+   (outer declarations do not matter); otherwise the current frame, and only it, gets x = v *)
+Theorem declare_rule : forall n st cur x e st1 v fr,
+  eval n st cur e = (st1, Val v) ->
+  nth_error (frames st1) cur = Some fr ->
+  (In x (names fr) -> eval (S n) st cur (EDecl x e) = (st1, Sig (SThrow VErr))) /\
+  (~ In x (names fr) ->
+     exists st2, eval (S n) st cur (EDecl x e) = (st2, Val VNull) /\
+       out st2 = out st1 /\
+       nth_error (frames st2) cur = Some (mkFrame (parent fr) ((x, v) :: vars fr)) /\
+       (forall f, f <> cur -> nth_error (frames st2) f = nth_error (frames st1) f) /\
+       lookup (frames st2) cur x = Some v).
+Proof.
+  intros n st cur x e st1 v fr E Efr.
+  change (eval (S n)) with (evalF (eval n)). cbn [evalF]. unfold eval_decl. rewrite E. cbn [bindR].
+  destruct (declare_spec st1 cur x v fr Efr) as [A B]. split.
+  - intros I. rewrite (A I). reflexivity.
+  - intros N. rewrite (B N). eexists. split; [reflexivity|]. cbn [frames out].
+    assert (Hn : nth_error (set_nth cur (mkFrame (parent fr) ((x, v) :: vars fr)) (frames st1)) cur
+                 = Some (mkFrame (parent fr) ((x, v) :: vars fr)))
+      by (eapply nth_error_set_nth_eq; eassumption).
+    repeat split.
+    + assumption.
+    + intros f Hf. apply nth_error_set_nth_neq. congruence.
+    + unfold lookup, resolve. cbn [resolve_aux]. rewrite Hn.
+      unfold in_dom, names. cbn [vars map fst existsb]. rewrite String.eqb_refl. cbn [orb].
+      rewrite Hn. cbn [vars assoc]. rewrite String.eqb_refl. reflexivity.
+Qed.
+
+Lemma assign_preserves_all : forall st cur x v st', assign st cur x v = Some st' -> preserves_all st st'.
+Proof.
+  intros st cur x v st' H. unfold assign in H.
+  destruct (resolve (frames st) cur x) as [g|]; [|discriminate].
+  destruct (nth_error (frames st) g) as [frg|] eqn:Eg; inversion H; subst st'; clear H.
+  intros f fr Hf. cbn [frames].
+  destruct (Nat.eq_dec f g) as [->|Hne].
+  - rewrite Hf in Eg. inversion Eg; subst frg.
+    eexists. split; [eapply nth_error_set_nth_eq; eassumption|]. split; [reflexivity|].
+    unfold names. cbn [vars]. apply names_assoc_set.
+  - exists fr. rewrite nth_error_set_nth_neq by congruence. auto.
+Qed.
+
+Lemma resolve_out_of_range : forall fs f x, List.length fs <= f -> resolve fs f x = None.
+Proof.
+  intros fs f x H. unfold resolve. cbn [resolve_aux].
+  destruct (nth_error fs f) eqn:E; [|reflexivity].
+  assert (f < List.length fs) by (apply nth_error_Some; congruence). lia.
+Qed.
+
+(* x = e, once e has produced v: it fails iff no enclosing frame declares x; otherwise it
+   rewrites x in the NEAREST enclosing declaring frame g and nothing else: no other frame, no
+   other variable, no domain *)
+Theorem assign_rule : forall n st cur x e st1 v,
+  eval n st cur e = (st1, Val v) ->
+  (resolve (frames st1) cur x = None -> eval (S n) st cur (EAssign x e) = (st1, Sig (SThrow VErr))) /\
+  (forall g, resolve (frames st1) cur x = Some g ->
+     exists fr st2, nth_error (frames st1) g = Some fr /\ nearest (frames st1) x cur g /\
+       eval (S n) st cur (EAssign x e) = (st2, Val VNull) /\ out st2 = out st1 /\
+       nth_error (frames st2) g = Some (mkFrame (parent fr) (assoc_set x v (vars fr))) /\
+       (forall f, f <> g -> nth_error (frames st2) f = nth_error (frames st1) f) /\
+       lookup (frames st2) cur x = Some v /\
+       (forall f y, y <> x -> lookup (frames st2) f y = lookup (frames st1) f y)).
+Proof.
+  intros n st cur x e st1 v E.
+  change (eval (S n)) with (evalF (eval n)). cbn [evalF]. unfold eval_assign. rewrite E. cbn [bindR].
+  split.
+  - intros R. unfold assign. rewrite R. reflexivity.
+  - intros g R. destruct (resolve_some_frame _ _ _ _ R) as [fr [Eg [Ix Hle]]].
+    assert (Ha : assign st1 cur x v = Some (mkState (set_nth g (mkFrame (parent fr) (assoc_set x v (vars fr))) (frames st1)) (out st1)))
+      by (unfold assign; rewrite R, Eg; reflexivity).
+    pose proof (assign_preserves_all _ _ _ _ _ Ha) as Hall.
+    exists fr, (mkState (set_nth g (mkFrame (parent fr) (assoc_set x v (vars fr))) (frames st1)) (out st1)).
+    rewrite Ha. cbn [frames out].
+    assert (Hn : nth_error (set_nth g (mkFrame (parent fr) (assoc_set x v (vars fr))) (frames st1)) g
+                 = Some (mkFrame (parent fr) (assoc_set x v (vars fr))))
+      by (eapply nth_error_set_nth_eq; eassumption).
+    assert (Hlen : forall f, f < List.length (frames st1) ->
+              forall y, resolve (set_nth g (mkFrame (parent fr) (assoc_set x v (vars fr))) (frames st1)) f y
+                        = resolve (frames st1) f y).
+    { intros f Hf y. apply (resolve_preserved st1 _ f y Hall Hf). }
+    repeat split; try assumption; try reflexivity.
+    + apply resolve_nearest. assumption.
+    + intros f Hf. apply nth_error_set_nth_neq. congruence.
+    + unfold lookup. rewrite Hlen.
+      * rewrite R, Hn. cbn [vars]. apply assoc_set_same. assumption.
+      * destruct (Nat.lt_ge_cases cur (List.length (frames st1))) as [L|L]; [assumption|].
+        rewrite resolve_out_of_range in R by assumption. discriminate.
+    + intros f y Hy. unfold lookup.
+      destruct (Nat.lt_ge_cases f (List.length (frames st1))) as [L|L].
+      * rewrite Hlen by assumption.
+        destruct (resolve (frames st1) f y) as [h|]; [|reflexivity].
+        destruct (Nat.eq_dec h g) as [->|Hne].
+        -- rewrite Hn, Eg. cbn [vars]. apply assoc_set_other. congruence.
+        -- rewrite nth_error_set_nth_neq by congruence. reflexivity.
+      * rewrite !resolve_out_of_range; [reflexivity|assumption|rewrite length_set_nth; assumption].
+Qed.
+
+(* ================================================================ 7. signals: who absorbs what *)
+(* While: with a true condition, the body's outcome decides *)
+Theorem while_absorbs_one_level : forall n st cur c b st2 vc st3 r,
+  eval n (fst (push_frame st cur)) (List.length (frames st)) c = (st2, Val vc) -> truthy vc = true ->
+  eval n st2 (List.length (frames st)) b = (st3, r) ->
+  eval (S n) st cur (EWhile c b) =
+    match r with
+    | Val _ => eval n st3 cur (EWhile c b)
+    | Sig (SContinue O) => eval n st3 cur (EWhile c b)
+    | Sig (SBreak O v) => (st3, Val (match v with Some w => w | None => VNull end))
+    | Sig (SBreak (S k) v) => (st3, Sig (SBreak k v))
+    | Sig (SContinue (S k)) => (st3, Sig (SContinue k))
+    | _ => (st3, r)
+    end.
+Proof.
+  intros n st cur c b st2 vc st3 r Ec Ht Eb.
+  change (eval (S n)) with (evalF (eval n)). cbn [evalF]. unfold eval_while.
+  cbn [push_frame fst] in *. rewrite Ec. cbn [bindR]. rewrite Ht, Eb.
+  destruct r as [?|[[|?] ?|[|?]| | |]|]; reflexivity.
+Qed.
+
+(* a false condition ends the loop with null; a signal from the condition is not absorbed *)
+Theorem while_condition : forall n st cur c b st2 rc,
+  eval n (fst (push_frame st cur)) (List.length (frames st)) c = (st2, rc) ->
+  (forall vc, rc = Val vc -> truthy vc = false -> eval (S n) st cur (EWhile c b) = (st2, Val VNull)) /\
+  (forall s, rc = Sig s -> eval (S n) st cur (EWhile c b) = (st2, Sig s)).
+Proof.
+  intros n st cur c b st2 rc Ec.
+  change (eval (S n)) with (evalF (eval n)). cbn [evalF]. unfold eval_while.
+  cbn [push_frame fst] in *. rewrite Ec. split.
+  - intros vc -> Ht. cbn [bindR]. rewrite Ht. reflexivity.
+  - intros s ->. reflexivity.
+Qed.
+
+(* For: the loop as a whole absorbs one level; the innermost pass absorbs `continue` *)
+Theorem for_absorbs_one_level : forall n st cur cls body,
+  eval (S n) st cur (EFor cls body) = for_result body (eval_for (eval n) cls (for_body (eval n) body) st cur []) /\
+  (forall st' acc k v, for_result body (st', acc, Sig (SBreak (S k) v)) = (st', Sig (SBreak k v))) /\
+  (forall st' acc k, for_result body (st', acc, Sig (SContinue (S k))) = (st', Sig (SContinue k))) /\
+  (forall st' acc v, for_result body (st', acc, Sig (SBreak O (Some v))) = (st', Val v)) /\
+  (forall st' acc, for_result body (st', acc, Sig (SBreak O None)) = (st', Val (finish body acc))) /\
+  (forall st' acc v, for_result body (st', acc, Sig (SReturn v)) = (st', Sig (SReturn v))) /\
+  (forall st' acc v, for_result body (st', acc, Sig (SThrow v)) = (st', Sig (SThrow v))) /\
+  (forall cb st' fr acc st'' acc',
+     cb st' fr acc = (st'', acc', Sig (SContinue O)) ->
+     eval_for (eval n) [] cb st' fr acc = (st'', acc', Val tt)).
+Proof.
+  intros n st cur cls body. repeat split; try reflexivity.
+  intros cb st' fr acc st'' acc' H. cbn [eval_for]. rewrite H. reflexivity.
+Qed.
+
+(* Closure::run: once the arguments are bound, only Return is turned into a value *)
+Theorem call_absorbs_only_return : forall n st ps body env args st2 st3 r,
+  bind_params (eval n) (fst (push_frame st env)) (List.length (frames st)) ps args = (st2, Val tt) ->
+  eval n st2 (List.length (frames st)) body = (st3, r) ->
+  apply_val (eval n) st (VClos ps body env) args =
+    (st3, match r with Sig (SReturn v) => Val v | _ => r end).
+Proof.
+  intros n st ps body env args st2 st3 r Eb Ebody.
+  cbn [apply_val push_frame fst] in *. rewrite Eb. cbn [bindR]. rewrite Ebody.
+  destruct r as [?|[]|]; reflexivity.
+Qed.
+
+Lemma set_nth_app_length {A} : forall (l : list A) a b, set_nth (List.length l) a (l ++ [b]) = l ++ [a].
+Proof. induction l as [|c l IH]; intros a b; cbn; [reflexivity|]. rewrite IH. reflexivity. Qed.
+
+Lemma nth_error_app_length {A} : forall (l : list A) a, nth_error (l ++ [a]) (List.length l) = Some a.
+Proof. intros. rewrite nth_error_app2 by lia. rewrite Nat.sub_diag. reflexivity. Qed.
+
+(* declaring into a just-pushed frame always succeeds *)
+Lemma declare_fresh : forall st p x v,
+  declare (fst (push_frame st p)) (List.length (frames st)) x v =
+  Some (mkState (frames st ++ [mkFrame (Some p) [(x, v)]]) (out st)).
+Proof.
+  intros st p x v. unfold declare. cbn [push_frame fst frames out].
+  rewrite nth_error_app_length. cbn [in_dom names vars map existsb parent].
+  rewrite set_nth_app_length. reflexivity.
+Qed.
+
+(* Try: everything but a Throw passes through untouched; a Throw runs the handler in a fresh
+   frame that holds the thrown value *)
+Theorem try_catches_only_throw : forall n st cur b x h st1 r,
+  eval n st cur b = (st1, r) ->
+  ((forall v, r <> Sig (SThrow v)) -> eval (S n) st cur (ETry b x h) = (st1, r)) /\
+  (forall v, r = Sig (SThrow v) ->
+     eval (S n) st cur (ETry b x h) =
+     eval n (mkState (frames st1 ++ [mkFrame (Some cur) [(x, v)]]) (out st1)) (List.length (frames st1)) h).
+Proof.
+  intros n st cur b x h st1 r E.
+  change (eval (S n)) with (evalF (eval n)). cbn [evalF]. unfold eval_try. rewrite E. split.
+  - intros H. destruct r as [?|[]|]; try reflexivity. exfalso. eapply H. reflexivity.
+  - intros v ->. cbn [declare_all].
+    change (fst (push_frame st1 cur)) with (fst (push_frame st1 cur)).
+    pose proof (declare_fresh st1 cur x v) as D. cbn [push_frame fst] in D |- *. rewrite D. reflexivity.
+Qed.
+
+(* and / or / coalesce: when the left operand decides, the result is exactly the left
+   operand's result - same value, same store, same output: the right operand is not evaluated *)
+Theorem short_circuit : forall n st cur a b st1 v,
+  eval n st cur a = (st1, Val v) ->
+  (truthy v = false -> eval (S n) st cur (EAnd a b) = (st1, Val v)) /\
+  (truthy v = true -> eval (S n) st cur (EOr a b) = (st1, Val v)) /\
+  (v <> VNull -> eval (S n) st cur (ECoalesce a b) = (st1, Val v)) /\
+  (truthy v = true -> eval (S n) st cur (EAnd a b) = eval n st1 cur b) /\
+  (truthy v = false -> eval (S n) st cur (EOr a b) = eval n st1 cur b) /\
+  (v = VNull -> eval (S n) st cur (ECoalesce a b) = eval n st1 cur b).
+Proof.
+  intros n st cur a b st1 v E.
+  change (eval (S n)) with (evalF (eval n)). cbn [evalF]. unfold eval_shortcut. rewrite E. cbn [bindR].
+  repeat split; intros H; try rewrite H; try reflexivity.
+  destruct v; try reflexivity. congruence.
+Qed.
+
+(* a signal raised by the left operand is the result, whatever the right operand is *)
+Theorem short_circuit_signal : forall n st cur a b st1 s,
+  eval n st cur a = (st1, Sig s) ->
+  eval (S n) st cur (EAnd a b) = (st1, Sig s) /\ eval (S n) st cur (EOr a b) = (st1, Sig s) /\
+  eval (S n) st cur (ECoalesce a b) = (st1, Sig s).
+Proof.
+  intros n st cur a b st1 s E.
+  change (eval (S n)) with (evalF (eval n)). cbn [evalF]. unfold eval_shortcut. rewrite E. auto.
+Qed.
+
+(* ================================================================ 8. lexical scoping *)
+(* the outcome of a call depends on the store, the callee and the arguments: if the callee
+   and argument expressions evaluate alike from two frames, so does the call *)
+Theorem lexical_scoping : forall n st cur1 cur2 fe args st1 fv st2 vs,
+  eval n st cur1 fe = (st1, Val fv) -> eval n st cur2 fe = (st1, Val fv) ->
+  eval_items (eval n) st1 cur1 args = (st2, Val vs) -> eval_items (eval n) st1 cur2 args = (st2, Val vs) ->
+  eval (S n) st cur1 (ECall fe args) = apply_val (eval n) st2 fv vs /\
+  eval (S n) st cur2 (ECall fe args) = apply_val (eval n) st2 fv vs.
+Proof.
+  intros n st cur1 cur2 fe args st1 fv st2 vs E1 E2 A1 A2.
+  change (eval (S n)) with (evalF (eval n)). cbn [evalF]. unfold eval_call.
+  rewrite E1, E2. cbn [bindR]. rewrite A1, A2. auto.
+Qed.
+
+(* a free variable of a closure body is looked up along the DEFINING frame's chain *)
+Lemma lookup_from_fresh : forall st env y,
+  env < List.length (frames st) ->
+  lookup (frames (fst (push_frame st env))) (List.length (frames st)) y = lookup (frames st) env y.
+Proof.
+  intros st env y Henv. unfold lookup.
+  assert (R : resolve (frames (fst (push_frame st env))) (List.length (frames st)) y = resolve (frames st) env y).
+  { unfold resolve at 1. cbn [resolve_aux push_frame fst frames].
+    rewrite nth_error_app_length. cbn [in_dom names vars map existsb parent].
+    assert (L : Nat.ltb env (List.length (frames st)) = true) by (apply Nat.ltb_lt; assumption). rewrite L.
+    rewrite resolve_aux_depth by assumption.
+    apply (resolve_preserved st (fst (push_frame st env)) env y (push_preserves_all st env) Henv). }
+  rewrite R. destruct (resolve (frames st) env y) as [g|] eqn:Eg; [|reflexivity].
+  destruct (resolve_some_frame _ _ _ _ Eg) as [fr [Efr [_ Hle]]].
+  cbn [push_frame fst frames]. rewrite nth_error_app1 by lia. reflexivity.
+Qed.
+
+(* the body `y` of a parameterless closure evaluates to y's value in the DEFINING scope,
+   from whichever frame it is called (even one that binds y differently) *)
+Theorem closure_reads_defining_scope : forall n st env y v,
+  env < List.length (frames st) -> lookup (frames st) env y = Some v ->
+  apply_val (eval (S n)) st (VClos [] (EVar y) env) [] = (fst (push_frame st env), Val v).
+Proof.
+  intros n st env y v Henv Hl.
+  cbn [apply_val push_frame bind_params params_ok forallb negb scan_params List.length rev Nat.eqb Nat.add
+       eval_exprs map eval_items ret bindR combine declare_all app].
+  change (eval (S n)) with (evalF (eval n)). cbn [evalF].
+  pose proof (lookup_from_fresh st env y Henv) as L. cbn [push_frame fst] in L. rewrite L, Hl. reflexivity.
+Qed.
+
+(* ================================================================ 9. closures capture variables *)
+Lemma assign_lookup : forall st cur x v st' env,
+  assign st cur x v = Some st' ->
+  resolve (frames st) env x = resolve (frames st) cur x ->
+  lookup (frames st') env x = Some v.
+Proof.
+  intros st cur x v st' env Ha Hr.
+  pose proof (assign_preserves_all _ _ _ _ _ Ha) as Hall.
+  unfold assign in Ha.
+  destruct (resolve (frames st) cur x) as [g|] eqn:R; [|discriminate].
+  destruct (resolve_some_frame _ _ _ _ R) as [fr [Eg [Ix _]]]. rewrite Eg in Ha. inversion Ha; subst st'; clear Ha.
+  unfold lookup.
+  assert (Henv : env < List.length (frames st)).
+  { destruct (Nat.lt_ge_cases env (List.length (frames st))) as [L|L]; [assumption|].
+    rewrite resolve_out_of_range in Hr by assumption. discriminate. }
+  rewrite (resolve_preserved st _ env x Hall Henv), Hr. cbn [frames].
+  erewrite nth_error_set_nth_eq by eassumption. cbn [vars]. apply assoc_set_same. assumption.
+Qed.
+
+(* a write to a captured variable, made after the closure was built, from anywhere the same
+   variable is visible, is what the next call of the closure reads *)
+Theorem capture_by_variable : forall n st cur x v st' env,
+  assign st cur x v = Some st' ->
+  resolve (frames st) env x = resolve (frames st) cur x ->
+  apply_val (eval (S n)) st' (VClos [] (EVar x) env) [] = (fst (push_frame st' env), Val v).
+Proof.
+  intros n st cur x v st' env Ha Hr.
+  apply closure_reads_defining_scope.
+  - assert (Henv : env < List.length (frames st)).
+    { destruct (Nat.lt_ge_cases env (List.length (frames st))) as [L|L]; [assumption|].
+      rewrite resolve_out_of_range in Hr by assumption.
+      unfold assign in Ha. rewrite <- Hr in Ha. discriminate. }
+    unfold assign in Ha. destruct (resolve (frames st) cur x); [|discriminate].
+    destruct (nth_error (frames st) n0); inversion Ha. cbn [frames]. rewrite length_set_nth. assumption.
+  - eapply assign_lookup; eassumption.
+Qed.
+
+(* ================================================================ 10. one fresh variable per iteration *)
+Fixpoint clos_from (x : name) (base : nat) (xs : list val) : list val :=
+  match xs with
+  | [] => []
+  | _ :: r => VClos [] (EVar x) base :: clos_from x (S base) r
+  end.
+
+Definition iter_frames (cur : nat) (x : name) (xs : list val) : list frame :=
+  map (fun el => mkFrame (Some cur) [(x, el)]) xs.
+
+Lemma declare_all_fresh1 : forall st p x v,
+  declare_all (fst (push_frame st p)) (List.length (frames st)) [(x, v)] =
+  (mkState (frames st ++ [mkFrame (Some p) [(x, v)]]) (out st), Val tt).
+Proof. intros. cbn [declare_all]. rewrite declare_fresh. reflexivity. Qed.
+
+Lemma for_each_closures : forall n x cur xs st acc,
+  for_each (eval_for (eval (S n)) [] (for_body (eval (S n)) (FYield (ELam [] (EVar x))))) cur
+           (map (fun el => [(x, el)]) xs) st acc
+  = (mkState (frames st ++ iter_frames cur x xs) (out st), acc ++ clos_from x (List.length (frames st)) xs, Val tt).
+Proof.
+  intros n x cur. induction xs as [|el xs IH]; intros st acc.
+  - cbn. rewrite !app_nil_r. destruct st; reflexivity.
+  - cbn [map for_each].
+    pose proof (declare_all_fresh1 st cur x el) as D. cbn [push_frame fst] in D |- *. rewrite D.
+    cbn [eval_for for_body]. change (eval (S n)) with (evalF (eval n)) at 1. cbn [evalF ret].
+    rewrite IH. cbn [frames out iter_frames map clos_from].
+    rewrite app_length. cbn [List.length]. rewrite Nat.add_1_r, <- !app_assoc. reflexivity.
+Qed.
+
+Lemma clos_from_nth : forall x xs base i el,
+  nth_error xs i = Some el -> nth_error (clos_from x base xs) i = Some (VClos [] (EVar x) (base + i)).
+Proof.
+  intros x. induction xs as [|a xs IH]; intros base [|i] el H; cbn in *; try discriminate.
+  - rewrite Nat.add_0_r. reflexivity.
+  - rewrite (IH (S base) i el H). f_equal. f_equal. lia.
+Qed.
+
+Lemma eval_for_iter : forall rec x le rest cb st cur acc st1 xs,
+  rec st cur le = (st1, Val (VList xs)) ->
+  eval_for rec (CIter x le :: rest) cb st cur acc =
+  for_each (eval_for rec rest cb) cur (map (fun el => [(x, el)]) xs) st1 acc.
+Proof. intros. cbn [eval_for clause_expr]. rewrite H. reflexivity. Qed.
+
+(* `for (x <- le) yield \ -> x`: one closure per element, each over its own frame (its own
+   variable x), and calling the i-th one - later, from anywhere - gives the i-th element *)
+Theorem per_iteration_closures : forall n st cur x le xs,
+  eval (S n) st cur le = (st, Val (VList xs)) ->
+  let st' := mkState (frames st ++ iter_frames cur x xs) (out st) in
+  let base := List.length (frames st) in
+  eval (S (S n)) st cur (EFor [CIter x le] (FYield (ELam [] (EVar x)))) = (st', Val (VList (clos_from x base xs))) /\
+  (forall i el, nth_error xs i = Some el ->
+     nth_error (clos_from x base xs) i = Some (VClos [] (EVar x) (base + i)) /\
+     forall m, apply_val (eval (S m)) st' (VClos [] (EVar x) (base + i)) [] = (fst (push_frame st' (base + i)), Val el)).
+Proof.
+  intros n st cur x le xs E st' base. split.
+  - change (eval (S (S n))) with (evalF (eval (S n))). cbn [evalF]. unfold eval_for_expr.
+    rewrite (eval_for_iter _ _ _ _ _ _ _ _ _ _ E).
+    rewrite for_each_closures. reflexivity.
+  - intros i el Hi. split; [eapply clos_from_nth; eassumption|].
+    intros m. apply closure_reads_defining_scope.
+    + subst st' base. cbn [frames]. rewrite app_length. unfold iter_frames. rewrite map_length.
+      assert (i < List.length xs) by (apply nth_error_Some; congruence). lia.
+    + assert (Hf : nth_error (frames st') (base + i) = Some (mkFrame (Some cur) [(x, el)])).
+      { subst st' base. cbn [frames]. rewrite nth_error_app2 by lia.
+        replace (List.length (frames st) + i - List.length (frames st)) with i by lia.
+        unfold iter_frames. apply (map_nth_error (fun el => mkFrame (Some cur) [(x, el)]) i xs Hi). }
+      unfold lookup, resolve. cbn [resolve_aux]. rewrite Hf.
+      cbn [in_dom names vars map fst existsb]. rewrite String.eqb_refl. cbn [orb].
+      rewrite Hf. cbn [vars assoc]. rewrite String.eqb_refl. reflexivity.
+Qed.
+
+(* ================================================================ 11. for-yield with a guard is map/filter *)
+Lemma for_each_map_filter : forall n cur x g e (gf : val -> bool) (ef : val -> val) xs,
+  (forall st' fr el, In el xs -> nth_error (frames st') fr = Some (mkFrame (Some cur) [(x, el)]) ->
+     exists gv, eval n st' fr g = (st', Val gv) /\ truthy gv = gf el) ->
+  (forall st' fr el, In el xs -> nth_error (frames st') fr = Some (mkFrame (Some cur) [(x, el)]) ->
+     eval n st' fr e = (st', Val (ef el))) ->
+  forall st acc,
+  for_each (eval_for (eval n) [CGuard g] (for_body (eval n) (FYield e))) cur (map (fun el => [(x, el)]) xs) st acc
+  = (mkState (frames st ++ iter_frames cur x xs) (out st), acc ++ map ef (filter gf xs), Val tt).
+Proof.
+  intros n cur x g e gf ef. induction xs as [|el xs IH]; intros Hg He st acc.
+  - cbn. rewrite !app_nil_r. destruct st; reflexivity.
+  - cbn [map for_each].
+    pose proof (declare_all_fresh1 st cur x el) as D. cbn [push_frame fst] in D |- *. rewrite D.
+    set (st2 := mkState (frames st ++ [mkFrame (Some cur) [(x, el)]]) (out st)).
+    assert (Hf : nth_error (frames st2) (List.length (frames st)) = Some (mkFrame (Some cur) [(x, el)]))
+      by (subst st2; cbn [frames]; apply nth_error_app_length).
+    destruct (Hg st2 _ el (or_introl eq_refl) Hf) as [gv [Eg Tg]].
+    pose proof (He st2 _ el (or_introl eq_refl) Hf) as Ee.
+    cbn [eval_for clause_expr]. rewrite Eg, Tg. cbn [filter].
+    assert (IH' : forall st acc,
+      for_each (eval_for (eval n) [CGuard g] (for_body (eval n) (FYield e))) cur (map (fun el => [(x, el)]) xs) st acc
+      = (mkState (frames st ++ iter_frames cur x xs) (out st), acc ++ map ef (filter gf xs), Val tt)).
+    { apply IH; intros; [apply Hg|apply He]; try assumption; right; assumption. }
+    destruct (gf el).
+    + cbn [eval_for for_body]. rewrite Ee. rewrite IH'. subst st2. cbn [frames out iter_frames map].
+      rewrite <- !app_assoc. reflexivity.
+    + rewrite IH'. subst st2. cbn [frames out iter_frames map]. rewrite <- !app_assoc. reflexivity.
+Qed.
+
+(* `for (x <- le; if g) yield e`, when g and e are expressions without effects whose value is a
+   function of the element: the list  map ef (filter gf xs)  *)
+Theorem yield_is_map_filter : forall n st cur x le g e xs (gf : val -> bool) (ef : val -> val),
+  eval n st cur le = (st, Val (VList xs)) ->
+  (forall st' fr el, In el xs -> nth_error (frames st') fr = Some (mkFrame (Some cur) [(x, el)]) ->
+     exists gv, eval n st' fr g = (st', Val gv) /\ truthy gv = gf el) ->
+  (forall st' fr el, In el xs -> nth_error (frames st') fr = Some (mkFrame (Some cur) [(x, el)]) ->
+     eval n st' fr e = (st', Val (ef el))) ->
+  eval (S n) st cur (EFor [CIter x le; CGuard g] (FYield e)) =
+    (mkState (frames st ++ iter_frames cur x xs) (out st), Val (VList (map ef (filter gf xs)))).
+Proof.
+  intros n st cur x le g e xs gf ef E Hg He.
+  change (eval (S n)) with (evalF (eval n)). cbn [evalF]. unfold eval_for_expr.
+  rewrite (eval_for_iter _ _ _ _ _ _ _ _ _ _ E).
+  rewrite (for_each_map_filter n cur x g e gf ef xs Hg He). reflexivity.
 Qed.
